@@ -394,9 +394,10 @@ def objParse (o : OObs) (memberOk : Loc → Nat → Bool) (memberOpt : Loc → B
     | none => some (known ++ unknown)
   else some known
 
-/-- object part of the JSON Schema (jsonschema/to.go `convertObjectFromShape`): properties, required = the fields whose
-    MEMBER is not optional (the partial state is not consulted), additionalProperties = the catchall's document when
-    there is one, else the boolean "mode is passthrough". -/
+/-- object part of the JSON Schema (jsonschema/to.go `convertObjectFromShape`): properties, required = the fields the OBJECT
+    says may not be absent (since /repo 792c820 the converter asks `IsFieldOptional`, i.e. `fieldOptional`: RequiredKeys, then
+    the partial state, then the member's own flag — before that only the member's flag), additionalProperties = the catchall's
+    document when there is one, else the boolean "mode is passthrough". -/
 structure ObjDoc where
   props : ShapeV
   required : List Nat
@@ -407,7 +408,7 @@ deriving DecidableEq, Repr
 def objDoc (o : OObs) (memberOpt : Loc → Bool) : ObjDoc :=
   let sh := o.base.shape.getD []
   { props := sh,
-    required := (sh.filter (fun p => !memberOpt p.2)).map (·.1),
+    required := (sh.filter (fun p => !fieldOptional o memberOpt p.1 p.2)).map (·.1),
     additional := match o.v.catchall with
       | some c => (2, some c)
       | none => (if o.v.mode == 2 then 1 else 0, none),
